@@ -31,6 +31,7 @@ class Spy:
         self.events = []
         self.depth = 0
         self.last_bs = {}
+        self.buffs_after = []
         calc = world.ss._calculator
         self.calc = calc
         inner = calc._notify
@@ -184,6 +185,7 @@ def run(seed, p, ops=None):
     """Execute a history; returns (ops, driver lines, [impl cache after each op], crash)."""
     rnd, w = WC.make_world(seed, p)
     spy = attach(w)
+    run.last_spy = spy
     gen = W.OpGen(rnd, p)
     lines = ['X']
     cur_uni = 'unset'
@@ -236,6 +238,8 @@ def run(seed, p, ops=None):
                         lines.append('MR %d %d' % (it._vid, a))
             lines.append('QK')
             impl.append(w.peek_cache())
+            lines.append('QB')
+            spy.buffs_after.append({k: v for k, v in spy.last_bs.items() if v != '-'})
     return done, lines, impl, None
 
 
@@ -245,18 +249,28 @@ def check(seed, p, ops=None):
     if crash:
         return done, {'where': 'micro:impl-crash', 'detail': crash}, {}
     out = C.run_driver('drv_micro', '\n'.join(lines) + '\n')
-    answers, cur = [], {}
+    buffs_impl = run.last_spy.buffs_after
+    answers, banswers, cur, curb = [], [], {}, {}
+    in_b = False
     for ln in out:
         if ln == '.':
-            answers.append(cur)
-            cur = {}
+            if in_b:
+                banswers.append(curb)
+                curb = {}
+            else:
+                answers.append(cur)
+                cur = {}
+            in_b = not in_b
         elif ln.startswith('K '):
             _, i, a, v = ln.split(' ')
             cur[(int(i), int(a))] = C.unq(v)
+        elif ln.startswith('B '):
+            _, i, e, ms = ln.split(' ')
+            curb[(int(i), int(e))] = ms
         elif ln.startswith('bad-op'):
             raise C.InfraError('micro driver: ' + ln)
-    if len(answers) != len(impl):
-        raise C.InfraError('micro driver answered %d of %d steps' % (len(answers), len(impl)))
+    if len(answers) != len(impl) or len(banswers) != len(impl):
+        raise C.InfraError('micro driver answered %d/%d of %d steps' % (len(answers), len(banswers), len(impl)))
     stats = {'steps': len(impl), 'cached_entries': sum(len(x) for x in impl)}
     for k, (m, i) in enumerate(zip(answers, impl)):
         if set(m) != set(i):
@@ -266,4 +280,19 @@ def check(seed, p, ops=None):
             if not C.close(float(m[key]), v):
                 return done, {'where': 'L2:cache-values', 'step': k, 'op': done[k], 'key': key,
                               'model': str(m[key]), 'impl': v}, stats
+    # the registered warfare-buff modifiers (payload of the message-level model) against what the specification
+    # derives from the buff id attributes and the templates
+    for k, (mb, ib) in enumerate(zip(banswers, buffs_impl)):
+        for key, ms in mb.items():
+            if ms == 'err':
+                stats['buff_spec_err'] = stats.get('buff_spec_err', 0) + 1
+                continue
+            stats['buff_registrations_compared'] = stats.get('buff_registrations_compared', 0) + (ms != '-')
+            if ib.get(key, '-') != ms:
+                return done, {'where': 'L2:buff-registry', 'step': k, 'op': done[k], 'projector': key, 'spec': ms,
+                              'impl': ib.get(key, '-')}, stats
+        for key in ib:
+            if key not in mb:
+                return done, {'where': 'L2:buff-registry', 'step': k, 'op': done[k], 'projector': key,
+                              'spec': 'no running boost', 'impl': ib[key]}, stats
     return done, None, stats
